@@ -68,6 +68,17 @@ fn scenarios(r: &mut Rng, n: usize) -> Vec<Scenario> {
     let mut endless = vec![b"GET /x HTTP/1.1\r\nHost: a\r\nX-Pad: ".to_vec()];
     endless.extend((0..n).map(|_| vec![b'a'; seglen]));
     out.push(Scenario { name: "http-endless-head", an: An::Http, segs: mk_stream(c, s, true, endless, vec![]) });
+    // HTTP: a head that never completes, every segment retransmitted with the SAME sequence number
+    {
+        let mut segs = mk_stream(c, s, true, vec![b"GET /x HTTP/1.1\r\nHost: a\r\nX-Pad: ".to_vec()], vec![]);
+        for _ in 0..n {
+            let mut g = Seg::new(c, s, ACK | PSH);
+            g.seq = 5000;
+            g.payload = vec![b'a'; 1400];
+            segs.push(g);
+        }
+        out.push(Scenario { name: "http-same-seq-retransmit", an: An::Http, segs });
+    }
     // HTTP: request, response head, then a huge body
     let mut body = vec![net::http1_response(r)];
     body.extend(junk(r, n, seglen));
@@ -284,7 +295,91 @@ fn run_scenario(ctx: &mut Ctx, sc: &Scenario) {
     ctx.emit(l.finish(&out.join(";")));
 }
 
+/// Capacity: many concurrently open, never-completing flows against a small configured capacity, through the
+/// sequential processors and through a real one-worker pool; the bytes retained afterwards are measured.
+fn run_capacity(ctx: &mut Ctx) {
+    use crate::registry::c10::{run_pool, Kind};
+    let mut r = ctx.rng.fork();
+    let rounds = ctx.n(2, 8);
+    for _ in 0..rounds {
+        for (kind, an) in [(Kind::Http, An::Http), (Kind::Tls, An::Tls)] {
+            let cap = *r.pick(&[4usize, 8, 16]);
+            let flows = 150usize;
+            let per_flow_segs = 14usize;
+            let seglen = 1400usize;
+            let mut frames: Vec<Vec<u8>> = vec![];
+            // all SYNs / first segments first, then the data round-robin: every flow is open at the same time
+            let eps: Vec<((std::net::IpAddr, u16), (std::net::IpAddr, u16))> =
+                (0..flows).map(|i| ((net::v4(0x0a30_0000 + i as u32), 42000), (net::v4(0x0a31_0001), if an == An::Http { 80 } else { 443 }))).collect();
+            for (c, s) in &eps {
+                if an == An::Http {
+                    frames.push(net::eth_bytes(&Seg::new(*c, *s, SYN)));
+                }
+            }
+            for k in 0..per_flow_segs {
+                for (c, s) in &eps {
+                    let mut g = Seg::new(*c, *s, ACK | PSH);
+                    g.seq = 1001 + (k * seglen) as u32;
+                    g.payload = if an == An::Http {
+                        if k == 0 { b"GET /x HTTP/1.1\r\nX: ".iter().copied().chain(std::iter::repeat(b'a').take(seglen - 20)).collect() } else { vec![b'a'; seglen] }
+                    } else if k == 0 {
+                        // a handshake record announcing 60000 bytes that never completes
+                        let mut v = vec![0x16, 3, 1, 0xea, 0x60, 1, 0, 0xea, 0x5c];
+                        v.extend(std::iter::repeat(0u8).take(seglen - 9));
+                        v
+                    } else {
+                        vec![0u8; seglen]
+                    };
+                    frames.push(net::eth_bytes(&g));
+                }
+            }
+            // sequential
+            let (_, live0) = snapshot();
+            let live_seq;
+            {
+                let mut http: TtlCache<huginn_net_http::http_process::FlowKey, huginn_net_http::http_process::TcpFlow> = TtlCache::new(cap);
+                let procs = huginn_net_http::http_process::HttpProcessors::new();
+                let mut tls: TtlCache<huginn_net_tls::FlowKey, huginn_net_tls::TlsClientHelloReader> = TtlCache::new(cap);
+                for f in &frames {
+                    let ip = Ipv4Packet::new(&f[14..]).unwrap();
+                    match an {
+                        An::Http => {
+                            let _ = huginn_net_http::process_ipv4_packet(&ip, &mut http, &procs, None);
+                        }
+                        _ => {
+                            let _ = huginn_net_tls::process_ipv4_packet(&ip, &mut tls);
+                        }
+                    }
+                }
+                let (_, l1) = snapshot();
+                live_seq = l1.saturating_sub(live0);
+            }
+            // one-worker pool with the same configured capacity and a large queue
+            let nframes = frames.len();
+            let (_, live0) = snapshot();
+            let run = run_pool_keep(kind, 1, nframes + 64, 8, 2, cap, frames.clone(), &mut r); // the clones are freed once analysed
+            let live_pool = run.1.saturating_sub(live0);
+            let mut l = Line::op("C11.cap");
+            l.tok(match an {
+                An::Http => "http",
+                _ => "tls",
+            })
+            .usize(cap)
+            .usize(flows)
+            .usize(per_flow_segs * seglen);
+            let _ = run_pool;
+            ctx.emit(l.finish(&format!("{},{},{}", live_seq, live_pool, if run.0 { "timeout" } else { "ok" })));
+        }
+    }
+}
+
+/// Like c10::run_pool but measures the live bytes at quiescence, BEFORE the pool is shut down and dropped.
+fn run_pool_keep(kind: crate::registry::c10::Kind, n: usize, queue: usize, batch: usize, timeout_ms: u64, max_conn: usize, frames: Vec<Vec<u8>>, r: &mut Rng) -> (bool, u64) {
+    crate::registry::c10::run_pool_measured(kind, n, queue, batch, timeout_ms, max_conn, vec![frames], r)
+}
+
 pub fn run(ctx: &mut Ctx) {
+    run_capacity(ctx);
     let mut r = ctx.rng.fork();
     let rounds = ctx.n(2, 6);
     for k in 0..rounds {
